@@ -230,6 +230,111 @@ Section Consistency.
   Qed.
 End Consistency.
 
+(* ================================================================================================ *)
+(* C'. completeness of the new tree at every crash point from the state tree's two guarantees       *)
+(* ================================================================================================ *)
+Local Notation BST := blt_strict_total.
+Definition stored (nodes : kvmap) (k : bytes) : Prop := lookup blt k nodes <> None.
+
+Lemma stored_insert : forall m k' v k, sorted blt m ->
+  (stored (insert blt k' v m) k <-> k = k' \/ stored m k).
+Proof.
+  intros m k' v k S. unfold stored. rewrite (lookup_insert _ BST) by exact S.
+  destruct (keqb blt k k') eqn:E.
+  - apply (keqb_eq _ BST) in E. split; [intros _; left; exact E|intros _; discriminate].
+  - apply (keqb_neq _ BST) in E. split; [intro H; right; exact H|intros [H|H]; [contradiction|exact H]].
+Qed.
+Lemma stored_remove : forall m k' k, sorted blt m -> k <> k' -> (stored (remove blt k' m) k <-> stored m k).
+Proof. intros m k' k S NE. unfold stored. rewrite (lookup_remove_neq _ BST) by assumption. tauto. Qed.
+
+Definition put_nodes (l : kvmap) (m : kvmap) : kvmap := fold_left (fun m kv => insert blt (fst kv) (snd kv) m) l m.
+Definition del_nodes (ds : list bytes) (m : kvmap) : kvmap := fold_left (fun m k => remove blt k m) ds m.
+
+Lemma put_nodes_sorted : forall l m, sorted blt m -> sorted blt (put_nodes l m).
+Proof. induction l as [|[k v] l IH]; intros m S; [exact S|]. apply IH. apply (insert_sorted _ BST). exact S. Qed.
+Lemma stored_put_nodes : forall l m k, sorted blt m -> (stored (put_nodes l m) k <-> In k (map fst l) \/ stored m k).
+Proof.
+  induction l as [|[k' v] l IH]; intros m k S; [cbn; tauto|]. unfold put_nodes in *. cbn [fold_left map fst snd In].
+  rewrite IH by (apply (insert_sorted _ BST); exact S). rewrite stored_insert by exact S.
+  split; [intros [H|[H|H]]|intros [[H|H]|H]]; auto.
+Qed.
+Lemma del_nodes_sorted : forall ds m, sorted blt m -> sorted blt (del_nodes ds m).
+Proof. induction ds as [|k ds IH]; intros m S; [exact S|]. apply IH. apply remove_sorted; assumption. Qed.
+Lemma stored_del_nodes : forall ds m k, sorted blt m -> ~ In k ds -> (stored (del_nodes ds m) k <-> stored m k).
+Proof.
+  induction ds as [|k' ds IH]; intros m k S NI; [tauto|]. unfold del_nodes in *. cbn [fold_left].
+  rewrite IH; [|apply remove_sorted; assumption|intro H; apply NI; right; exact H].
+  apply stored_remove; [exact S|intro E; apply NI; left; symmetry; exact E].
+Qed.
+
+Lemma fold_id : forall (A B : Type) (f : A -> B -> A) l a, (forall b, In b l -> forall a, f a b = a) -> fold_left f l a = a.
+Proof.
+  intros A B f. induction l as [|b l IH]; intros a H; [reflexivity|]. cbn [fold_left].
+  rewrite (H b (or_introl eq_refl)). apply IH. intros b' I. apply H. right. exact I.
+Qed.
+Lemma subs_wops_only_subs : forall u w, In w (subs_wops u) -> forall m, apply_nodes m w = m.
+Proof.
+  intros u w I m. unfold subs_wops in I. apply in_flat_map in I. destruct I as [[nk nu] [_ I]].
+  unfold node_wops in I. apply in_flat_map in I. destruct I as [[pn pu] [_ I]]. cbn [fst snd] in I.
+  destruct pu as [l|l]; cbn [part_wops] in I.
+  - apply in_map_iff in I. destruct I as [[k x] [E _]]. subst w. destruct x; reflexivity.
+  - destruct I as [E|I]; [subst w; reflexivity|]. apply in_map_iff in I. destruct I as [[k x] [E _]]. subst w. reflexivity.
+Qed.
+Lemma tree_wops_nodes : forall pruning next d m, fold_left apply_nodes (tree_wops pruning next d) m = put_nodes (td_new_nodes d) m.
+Proof.
+  intros pruning next d m. unfold tree_wops. rewrite !fold_left_app, fold_left_map.
+  replace (fold_left (fun a x => apply_nodes a (WPut CfNodes (fst x) (snd x))) (td_new_nodes d) m)
+    with (put_nodes (td_new_nodes d) m) by reflexivity.
+  destruct pruning; reflexivity.
+Qed.
+Lemma batch_nodes : forall pruning next u d s,
+  st_nodes (fold_left apply_wop (subs_wops u ++ tree_wops pruning next d) s) = put_nodes (td_new_nodes d) (st_nodes s).
+Proof.
+  intros. rewrite nodes_fold, fold_left_app, (fold_id _ _ apply_nodes (subs_wops u)) by (apply subs_wops_only_subs).
+  apply tree_wops_nodes.
+Qed.
+Lemma del_steps_nodes : forall ds s, st_nodes (run (map del_node ds) s) = del_nodes ds (st_nodes s).
+Proof.
+  induction ds as [|k ds IH]; intro s; [reflexivity|]. unfold run, del_nodes in *. cbn [map fold_left]. rewrite IH. reflexivity.
+Qed.
+
+Lemma in_firstn : forall (A : Type) n (l : list A) x, In x (firstn n l) -> In x l.
+Proof. intros A n l x I. rewrite <- (firstn_skipn n l). apply in_or_app. left. exact I. Qed.
+
+Section TreeGuarantees.
+  Variable root_of : kvmap -> bytes.
+  (* keys of the tree nodes reachable from the root (hash r) of version v *)
+  Variable needed : N -> bytes -> list bytes.
+  Definition complete_by (nodes : kvmap) (v : N) (r : bytes) : Prop := forall k, In k (needed v r) -> stored nodes k.
+
+  Theorem commit_crash_safe_tree : forall pruning s u d steps,
+    commit_steps pruning s u d = CommitSteps steps ->
+    let post := run steps s in
+    sorted blt (st_nodes s) ->
+    Consistent root_of complete_by s ->
+    (* C17: the returned root describes the post-commit substates; the new tree is made of stored and new nodes *)
+    td_root d = root_of (st_subs post) ->
+    (forall k, In k (needed (cur_version s + 1) (td_root d)) -> stored (st_nodes s) k \/ In k (map fst (td_new_nodes d))) ->
+    (* C18: no pruned key is needed by the new tree *)
+    (forall k, In k (td_deleted d) -> ~ In k (needed (cur_version s + 1) (td_root d))) ->
+    forall k, (k <= length steps)%nat ->
+      Consistent root_of complete_by (crash_state k steps s) /\
+      (proj (crash_state k steps s) = proj s \/ proj (crash_state k steps s) = proj post).
+  Proof.
+    intros pruning s u d steps H post SN C0 HR H17 H18 k L.
+    apply (commit_crash_safe root_of complete_by pruning s u d steps H C0 HR); [|exact L].
+    intros j [J1 J2] key NK. destruct (commit_layout _ _ _ _ _ H) as [_ E].
+    destruct j as [|j]; [lia|]. rewrite E, crash_state_S. unfold crash_state. rewrite firstn_map.
+    rewrite del_steps_nodes. cbn [apply_step]. rewrite batch_nodes.
+    apply stored_del_nodes.
+    - apply put_nodes_sorted. exact SN.
+    - intro I. assert (I' : In key (td_deleted d)).
+      { destruct pruning; [exact (in_firstn _ _ _ _ I)|destruct j; destruct I]. }
+      exact (H18 _ I' NK).
+    - apply stored_put_nodes; [exact SN|]. destruct (H17 _ NK) as [A|A]; [right|left]; exact A.
+  Qed.
+End TreeGuarantees.
+
 Lemma commit_panics_iff : forall pruning s u d,
   commit_steps pruning s u d = CommitPanic <-> 2 ^ 64 <= cur_version s + 1.
 Proof.
